@@ -340,10 +340,27 @@ def iterate(ctx, p, K):
         nm = ctor[0].targets[0].id
         passthrough(ctx, rule, p, m, grid_expr=f"{nm}.over_sampled_grid", sink="binned_array_2d_from", sink_kw="array") if False else None
         calls = [cc for cc in m.calls() if isinstance(cc.func, ast.Name) and cc.func.id == "func"]
-        good = len(calls) == 1 and len(calls[0].args) >= 2 and norm_text(calls[0].args[1]) in ("over_sampled_grid", f"{nm}.over_sampled_grid")
+        # name-free (sa/paths.py): the returned value is <sampler>.binned_array_2d_from(array=func(cls, <sampler>.over_sampled_grid, ...)).native with <sampler> the over-sampler built above
+        PSl = paths.returns(paths.path_summaries(m) or [])
         rets = wire.returns_of(m)
-        good = good and len(rets) == 1 and norm_text(rets[0].value).startswith(f"{nm}.binned_array_2d_from(array=") and norm_text(rets[0].value).endswith(".native")
+        good = len(calls) == 1 and len(PSl) == 1
+        if good:
+            smp = paths.ptext(ctor[0].value)
+            v_ = PSl[0].value
+            good = isinstance(v_, ast.Attribute) and v_.attr == "native" and isinstance(v_.value, ast.Call) and isinstance(v_.value.func, ast.Attribute) and v_.value.func.attr == "binned_array_2d_from" \
+                and paths.ptext(v_.value.func.value) == smp and set(paths.kwargs(v_.value)) == {"array"}
+            inner_ = paths.kwargs(v_.value).get("array") if good else None
+            good = good and isinstance(inner_, ast.Call) and paths.ptext(inner_.func) == "func" and len(inner_.args) >= 2 and paths.ptext(inner_.args[1]) == f"{smp}.over_sampled_grid"
         ctx.ob(rule, m.key + ":level", good, where=m, node=calls[0] if calls else m.node, construct=norm_text(rets[0].value) if rets else "", message="level value = binned func(over-sampled grid), in native form")
+
+
+def _accumulates(m, loop, call, name) -> bool:
+    """the fill routine receives the running result and its value is bound back to the same local, which starts as zeros of the native shape before the loop"""
+    if not (isinstance(name, str) and name.isidentifier()):
+        return False
+    back = [n for n in ast.walk(loop) if isinstance(n, ast.Assign) and n.value is call and len(n.targets) == 1 and norm_text(n.targets[0]) == name]
+    init = [n for n in wire.main_line(m) if isinstance(n, ast.Assign) and norm_text(n.targets[0]) == name and n.lineno < loop.lineno]
+    return len(back) == 1 and len(init) == 1 and norm_text(init[0].value).replace(" ", "") in ("np.zeros(self.mask.shape_native)", "np.zeros(shape=self.mask.shape_native)")
 
 
 def level_advance(ctx, p):
@@ -383,7 +400,7 @@ def level_advance(ctx, p):
     # the level is evaluated on the still-unresolved mask with this iteration's sub size; the higher array is that level's result
     src = [v for t, v, n in top if t == higher_a]
     ok = k3.get("mask") == lower_m and k3.get("sub_size") == norm_text(loop.target) and k3.get("func") == "func" and len(src) == 1 and "array_at_sub_size_from" in src[0] \
-        and k2.get("array_higher_sub_2d") == higher_a and k2.get("iterated_array") == "iterated_array"
+        and k2.get("array_higher_sub_2d") == higher_a and _accumulates(m, loop, calls["iterated_array_jit_from"], k2.get("iterated_array"))
     ctx.ob(rule, m.key + ":level-inputs", ok, where=m, node=calls["array_at_sub_size_from"], construct=f"array_at_sub_size_from{k3}; iterated_array_jit_from{k2}",
            message="each level must be evaluated on the still-unresolved mask at this iteration's sub size and its array used both for the threshold test and the fill")
     # the first 'previous level' is the plain evaluation on the unmasked grid; the last level fills the remainder
